@@ -169,7 +169,23 @@ func c07Units(g *ggen, i int) []c07Unit {
 	nOther := 1 + g.r.Intn(3)
 	for j := 0; j < nOther; j++ {
 		id := fmt.Sprintf("%d_%d", i, j)
-		switch g.r.Intn(3) {
+		switch g.r.Intn(5) {
+		case 3: // UNPREFIXED package_info with generic declarations: their type parameters are bound names
+			p1 := pick()
+			p2 := pick()
+			for p2 == p1 {
+				p2 = pick()
+			}
+			us = append(us, c07Unit{
+				src:   fmt.Sprintf("package_info _ =\n  let Lookup%s<%s, %s>: %s->%s->int\n  let Wrap%s<%s>: %s->[]%s\n\nlet useLookup%s () =\n  Lookup%s 1 \"a\"\n\n", id, p1, p2, p1, p2, id, p1, p1, p1, id, id),
+				decls: []string{"func useLookup" + id}, after: -1,
+			})
+		case 4: // the same in a named package
+			p1 := pick()
+			us = append(us, c07Unit{
+				src:   fmt.Sprintf("package_info gen%s =\n  let Conv%s<%s>: %s->int\n\nlet useConv%s () =\n  gen%s.Conv%s \"c\"\n\n", id, id, p1, p1, id, id, id),
+				decls: []string{"func useConv" + id}, after: -1,
+			})
 		case 0: // generic record
 			p1 := pick()
 			p2 := pick()
